@@ -14,6 +14,20 @@ import (
 var c09IDs = []string{"a", "b", "c", "d", "e"}
 var c09Types = []sbom.Edge_Type{sbom.Edge_contains, sbom.Edge_dependsOn}
 
+// c09Universe picks the identifier universe and edge types of a case: three quarters use plain letters and two edge
+// types; one quarter uses identifiers and type numbers that glue together alike ("a1"+"1" == "a"+"11",
+// "a1"+"12" == "a11"+"2"), on which keys built by concatenating source, type and target collide.
+func c09Universe(k int) string {
+	if (k/2)%4 == 1 {
+		c09IDs = []string{"a", "a1", "a11", "1", "11"}
+		c09Types = []sbom.Edge_Type{1, 2, 11, 12}
+		return "universe:identifiers-and-type-numbers-that-concatenate-alike"
+	}
+	c09IDs = []string{"a", "b", "c", "d", "e"}
+	c09Types = []sbom.Edge_Type{sbom.Edge_contains, sbom.Edge_dependsOn}
+	return "universe:plain"
+}
+
 func c09List(r *rand.Rand, illFormed bool, attrs bool) *sbom.NodeList {
 	o := gen.GraphOpts{Universe: c09IDs, EdgeTypes: c09Types, PNode: 0.2 + 0.7*r.Float64(), PEdge: 0.25 * r.Float64(), PRoot: 0.5 * r.Float64(), IllFormed: illFormed}
 	if attrs {
@@ -59,7 +73,7 @@ func c09CheckSets(c *core.C, what string, got *sbom.NodeList, ids, roots, triple
 func init() {
 	core.Register(&core.Prop{
 		ID: "C09", Level: "exploration",
-		Rule: "each case draws node lists A,B,C over a 5-id universe and 2 edge types (case parity decides whether ill-formed operands - dangling edges/roots, several edges per source/type, repeated targets - are allowed; " +
+		Rule: "each case draws node lists A,B,C over a 5-id universe and 2 edge types (a quarter of the cases: identifiers and type numbers that concatenate alike, 4 edge types; case parity decides whether ill-formed operands - dangling edges/roots, several edges per source/type, repeated targets - are allowed; " +
 			"shared nodes carry reflection-populated attributes, each field independently empty or not). Monitored: Union(A,B) and Add against the set model (ids, roots, edge triples restricted to present nodes), " +
 			"idempotence, commutativity, identity, associativity (where the model itself is associative, i.e. always for well-formed operands), attribute precedence per schema field for every shared node " +
 			"(Union: argument wins when non-empty; Add: receiver wins when non-empty). distinct = hash of canonical (A,B); non-trivial = A and B share at least one node or both have edges.",
@@ -76,6 +90,7 @@ func init() {
 
 func c09Case(c *core.C) {
 	r := c.R
+	c.Cover(c09Universe(c.K))
 	ill := c.K%2 == 1
 	A, B, C := c09List(r, ill, true), c09List(r, ill, true), c09List(r, ill, false)
 	if c.K%7 == 3 && len(A.Nodes) > 0 {
